@@ -136,10 +136,17 @@ func checkRotationArcArguments(c *Ctx, rule string) {
 			}
 			n++
 			v := ss.Val.Strip()
-			seat := ss.Addr.Strip().Args[0].Strip() // SeatData[seatID]
-			ok := v.Kind == "call" && len(v.Args) == 4 && seat.Kind == "lookup" &&
+			seat := ss.Addr.Strip().Args[0].Strip() // SeatData[seatID], or the value variable of "range SeatData"
+			seatKey := ""
+			switch seat.Kind {
+			case "lookup":
+				seatKey = seat.Args[1].Strip().String()
+			case "rangeval":
+				seatKey = (&Sym{Kind: "rangekey", Args: seat.Args}).String()
+			}
+			ok := v.Kind == "call" && len(v.Args) == 4 && seatKey != "" &&
 				bbs[v.Args[2].Strip().String()] && dealers[v.Args[1].Strip().String()] &&
-				v.Args[3].Strip().String() == seat.Args[1].Strip().String() && v.Args[3].Strip().Kind == "rangekey"
+				v.Args[3].Strip().String() == seatKey && v.Args[3].Strip().Kind == "rangekey"
 			c.Check(ok, rule, "rotation-waiting-flag:arguments", p.InstrPos(ss.Instr), "arc(new dealer candidate, new BB, the seat itself)", "the rotation re-evaluates a seat's waiting flag with "+v.String()+": not the arc from the next dealer seat to the next big-blind seat around that very seat")
 		}
 	}
